@@ -20,21 +20,24 @@ Check (C13_keyword_tables_agree : tables_ok printer_keywords lexer_reserved gram
 Check (C13_ident_quoted_roundtrip : forall k rest : str, rest_ok rest = true ->
   key_of grammar_accepted (lex_key lexer_reserved (print_key printer_keywords k ++ rest)) = Some (k, rest)).
 Check (C13_int_roundtrip : forall n : Z, (i64_min <= n <= u64_max)%Z ->
-  int_token n = Some (dec_of_Z n) /\ (forall f, resolve f Plain None (dec_of_Z n) = RNum n 0)
+  int_token n = Some (dec_of_Z n) /\ resolve Plain None (dec_of_Z n) = RNum n 0
   /\ json_serde_int (dec_of_Z n) = SInt n /\ ((n <= i64_max)%Z -> toml_int (dec_of_Z n) = TInt n)).
 Check (C13_int_outside_range_goes_through_f64 : forall n : Z,
   (n < i64_min \/ u64_max < n)%Z -> serialize_int n = NF64 /\ int_token n = None).
-Check (C13_yaml_quoted_is_string : forall f st tg v, st <> Plain -> resolve f st tg v = RStr v).
-Check (C13_yaml_plain_resolution : forall (f : fmt) (v : str),
-  (resolve f Plain None v = RStr v <-> nonstring_spelling f v = false)
-  /\ (resolve f Plain None v = RErr <-> infnan_spelling v = true)).
+Check (C13_yaml_quoted_is_string : forall st tg v, st <> Plain -> resolve st tg v = RStr v).
+Check (C13_yaml_plain_resolution : forall v : str,
+  (resolve Plain None v = RStr v <-> nonstring_spelling v = false)
+  /\ (resolve Plain None v = RErr <-> infnan_spelling v = true)).
 Check (C13_yaml_string_survives_under_contract :
   forall (writes_plain : str -> bool) (quoted : style), quoted <> Plain -> emitter_meets_contract writes_plain ->
-  forall s, resolve FYaml (if writes_plain s then Plain else quoted) None s = RStr s).
-Check (C13_yaml_contract_necessary : forall f s, nonstring_spelling f s = true -> resolve f Plain None s <> RStr s).
+  forall s, resolve (if writes_plain s then Plain else quoted) None s = RStr s).
+Check (C13_yaml_contract_necessary : forall s, nonstring_spelling s = true -> resolve Plain None s <> RStr s).
 Check (C13_loaders_agree : forall t : jtree, in_scope t = true ->
   loader_run (events t) = Some (denote t) /\ serde_run (events t) = Some (denote t)).
 Check (C13_from_sci_grammar : forall v : str, is_some (from_sci v) = sci_grammar v).
+Check (C13_yaml_overflow_spelling_is_number : forall v : str, float_overflow_spelling v = true ->
+  exists m e, from_sci v = Some (m, e) /\ overflows_f64 m e = true /\ resolve Plain None v = RNum m e).
+Check (C13_yaml_overflow_class_refuted : exists v : str, float_overflow_spelling v = true /\ resolve Plain None v <> RStr v).
 (* the definitions the statements are about are the executable ones (not re-bound) *)
 Check (eq_refl : i64_min = (- 2 ^ 63)%Z).
 Check (eq_refl : u64_max = (2 ^ 64 - 1)%Z).
